@@ -14,7 +14,8 @@
 (*                              variations::instance)]                     *)
 (*              o = [ok |-> <<BOOLEAN...>>, err |-> <<STRING...>>,         *)
 (*                   outs |-> <<<<raw 2.14 per axis>>, ...>>]              *)
-(*  NormalizeLen a = [naxes, len, avar], o = [ok, err]                     *)
+(*  NormalizeLen a = [naxes, len, avar], o = [ok, err, owned]               *)
+(*              (owned: FvarTable::owned_tuple accepted len values)        *)
 (*  Conv        a = [x0, n]  the F2Dot14 raw values x0 .. x0+n-1           *)
 (*              o = [fixed   |-> Fixed::from(F2Dot14) raw,                 *)
 (*                   back    |-> F2Dot14::from(Fixed(4x + k)), k = -2..1,  *)
@@ -68,13 +69,14 @@ EmitClass(e) ==
   LET NA == Len(e.a.axes)
       NT == Len(e.a.tuples)
       J == {j \in 1 .. NA : AxisJudged(e, j)}
-      CC == [i \in 1 .. NT, j \in J |-> ValueClass(e, i, j)]
+      CC == TLCEval([i \in 1 .. NT, j \in J |-> ValueClass(e, i, j)])
   IN PrintT(<<"CLASS", ToJson([cl \in Classes |-> Cardinality({p \in (1 .. NT) \X J : CC[p[1], p[2]] = cl})])>>)
 
 JudgeNormalize(e) ==
   LET NA == Len(e.a.axes)
       NT == Len(e.a.tuples)
-      VV == [i \in 1 .. NT, j \in 1 .. NA |-> IF AxisJudged(e, j) THEN V(e, i, j) ELSE ""]
+      \* (TLCEval: a function constructor is a lazy lambda that TLC would re-evaluate at every application)
+      VV == TLCEval([i \in 1 .. NT, j \in 1 .. NA |-> IF AxisJudged(e, j) THEN V(e, i, j) ELSE ""])
   IN
   /\ \A j \in 1 .. NA :
        IF AxisJudged(e, j) THEN TRUE
@@ -111,7 +113,9 @@ JudgeNormalize(e) ==
                                                  err |-> "", nbad |-> Cardinality(bad)])>>)
 
 JudgeLen(e) ==
-  IF e.o.ok = LengthAccepted(e.a.naxes, e.a.len) /\ (e.o.ok \/ e.o.err = "BadValue") THEN TRUE
+  IF /\ e.o.ok = LengthAccepted(e.a.naxes, e.a.len) /\ (e.o.ok \/ e.o.err = "BadValue")
+     /\ e.o.owned = LengthAccepted(e.a.naxes, e.a.len)
+  THEN TRUE
   ELSE PrintT(<<"MISMATCH", ToJson([i |-> e.i, case |-> e.case, ev |-> e.ev, via |-> "normalize",
                                     clause |-> "length", axis |-> 0, ax |-> <<e.a.naxes, e.a.len>>,
                                     avar |-> e.a.avar, map |-> <<>>, v |-> e.a.len, got |-> <<>>,
